@@ -333,9 +333,10 @@ def run(rep: Report, ctx: Any) -> str:
                 n_conv += 1
                 _transform_converts(rep, jx, ti, c.name)
         if "construct_function" in ti.macros:
-            cons = ti.macros.get("construct")
-            routed = cons is not None and any(isinstance(c2, nodes.Call) and expr_text(c2.node) == "construct_template" and c2.args and
-                                              expr_text(c2.args[0]) == "construct_function" for c2 in cons.find_all(nodes.Call))
+            # (anywhere in construct and the macros of the template it calls; the function handed over by position or by keyword)
+            routed = any(isinstance(c2, nodes.Call) and expr_text(c2.node).rsplit(".", 1)[-1] == "construct_template" and
+                         "construct_function" in [expr_text(a) for a in [*c2.args[:1], *[k.value for k in c2.kwargs]]]
+                         for m2 in _macro_region(ti, "construct") for c2 in m2.find_all(nodes.Call))
             rep.check(routed, "R02.2", f"{c.name}::construct-routed", "construct does not go through construct_template(construct_function, ...)",
                       where=f"{PKG}/templates/{ti.name}", lhs=None, rhs="construct_template(construct_function, property, source)")
     rep.floor("property_kinds", n_k, 8)
@@ -481,7 +482,7 @@ def _transform_converts(rep: Report, jx: Any, ti: Any, kind: str) -> None:
         present = [(st, v) for st, v in vals if v != "UNSET"]
         when = ", ".join(f"{k}={v}" for k, v in sorted(env.items())) or "always"
         if not present:
-            opaque = [p_[1] for p_ in a.parts if not isinstance(p_, str) and not isinstance(p_[0], (nodes.Name, nodes.Getattr, nodes.Const))]
+            opaque = [p_[1] for p_ in a.parts if not isinstance(p_, str) and not isinstance(p_[0], (nodes.Name, nodes.Getattr))]
             (hidden if opaque else none).append(f"[{when}] {show(txt)[:160]!r}")
             continue
         for i, (st, v) in enumerate(present):
